@@ -42,6 +42,8 @@ type Obj struct {
 	keysValid bool
 
 	watch *watch
+
+	havocLabel string // set by zzverif.Havoc: label under which the content appears in models
 }
 
 type watch struct {
